@@ -294,6 +294,16 @@ def check_warm_start(ctx, F):
     ctx.floor("R17.4", "warm_start runs", n, 8)
 
 
+def _guarded(node, top):
+    ch, p = node, parent(node)
+    while p is not None and p is not top:
+        if isinstance(p, (ast.If, ast.For, ast.While, ast.Try)) and not (
+                isinstance(p, ast.If) and any(ch is x for x in ast.walk(p.test))):
+            return True
+        ch, p = p, parent(p)
+    return False
+
+
 def check_row_counts(ctx):
     """R17.5: training indexes rewards and contexts by the positions of the decisions. Unless the facade rejects
     batches whose arrays differ in length before any state is touched, such a batch fails (or silently misaligns)
@@ -309,14 +319,41 @@ def check_row_counts(ctx):
     eq_r = canon_eq("len(%s)" % d, "len(%s)" % r)
     eq_c = canon_eq("len(%s)" % d, "len(%s)" % c)
     ok_r = any(" ".join(ast.unparse(t).split()) == eq_r for t in tests)
+    if ok_r:
+        # ... and on every path: the check must not sit under a condition on the data
+        rc = [x for x in ast.walk(fn.node) if isinstance(x, ast.Call) and ast.unparse(x.func) == "check_true" and
+              x.args and " ".join(ast.unparse(x.args[0]).split()) == eq_r]
+        ok_r = any(not _guarded(x, fn.node) for x in rc)
     ctx.check(ok_r, "R17.5", "decisions and rewards of unequal length are rejected by the facade", fn.node, fn,
               "no check_true(%s, ...)" % eq_r, construct="def MAB._validate_fit_args (rewards length)")
     ok_c, seen = False, None
-    for t in tests:
+
+    def skips(call):
+        """conditions under which the statement holding `call` is not reached (from the enclosing if statements)"""
+        out = []
+        ch, p = call, parent(call)
+        while p is not None and p is not fn.node:
+            if isinstance(p, ast.If) and not any(ch is x for x in ast.walk(p.test)):
+                in_body = any(ch is x or any(ch is y for y in ast.walk(x)) for x in p.body)
+                g = " ".join(ast.unparse(p.test).split())
+                if in_body:
+                    # reached only when g holds: skipped when it does not
+                    if g not in ("%s is not None" % c,):
+                        out.append("not (%s)" % g)
+                else:
+                    if g not in ("%s is None" % c,):
+                        out.append(g)
+            ch, p = p, parent(p)
+        return out
+    calls = [x for x in ast.walk(fn.node) if isinstance(x, ast.Call) and ast.unparse(x.func) == "check_true"
+             and x.args]
+    for call in calls:
+        t = call.args[0]
         parts = t.values if isinstance(t, ast.BoolOp) and isinstance(t.op, ast.Or) else [t]
         txt = [" ".join(ast.unparse(p).split()) for p in parts]
         if eq_c not in txt:
             continue
+        txt = txt + skips(call)
         seen = txt
         rest = [p for p in txt if p != eq_c]
         single = canon_eq("len(%s)" % d, "1")
